@@ -31,6 +31,7 @@ def run(chk: Check):
     distreg(chk, rng)
     logging_(chk, rng)
     node_api(chk, rng)
+    mvnd_numeric(chk, rng)
 
 
 VW_MC = """CONSTANTS NV = 2 NN = {nn} Kind <- Kind{nn} Names = {names} Atomic = {atomic}
@@ -206,3 +207,34 @@ def node_api(chk, rng):
              f"node holds a value that is not the from-scratch one (TLC with NodeUpdate unrestricted: {r.error}; on a real "
              f"model: c3 = {last['val'][2]} after update(), outdated = {last['outd'][2]}; reproduced = {bool(stale)}). "
              "With the precondition InputsUpToDate every C01 invariant holds (part of C01's model and traces).")
+
+
+def mvnd_numeric(chk, rng):
+    """G9 (numeric, recorded only; C18 is not applicable to this technique): MultivariateNormalDegenerate decides which
+    eigenvalues of the precision matrix are zero with an *absolute* tolerance (1e-6).  For a penalty matrix K and a small
+    variance parameter the precision K / tau2 is large, the float32 noise in its null eigenvalues exceeds the tolerance,
+    and the sampler scales the corresponding null direction by 1 / sqrt(noise): the draw leaves the support."""
+    import jax
+    import jax.numpy as jnp
+    import numpy as np
+    from liesel.distributions import MultivariateNormalDegenerate as MVND
+    d = 6
+    D_ = np.diff(np.eye(d), 2, axis=0)
+    K = (D_.T @ D_).astype(np.float32)
+    w, V = np.linalg.eigh(K.astype(np.float64))
+    null = V[:, w < 1e-8]
+    bad, worst = [], 0.0
+    grid = np.geomspace(0.01, 25.0, 60)
+    for tau2 in grid:
+        dist = MVND.from_penalty(loc=0.0, var=jnp.float32(tau2), pen=jnp.asarray(K))
+        x = np.asarray(dist.sample(seed=jax.random.PRNGKey(1)), np.float64)
+        r = float(np.linalg.norm(null.T @ x) / max(np.linalg.norm(x), 1e-30))
+        if r > 1e-2:
+            bad.append(float(tau2))
+            worst = max(worst, float(np.linalg.norm(x)))
+    chk.extra["G9_variances_with_draws_outside_the_support"] = len(bad)
+    chk.extra["G9_largest_variance_affected"] = max(bad) if bad else None
+    chk.note("G9 (numeric, not a listed property that this technique claims): MultivariateNormalDegenerate.sample for a "
+             f"second-order difference penalty (d = 6): for {len(bad)} of {len(grid)} variance parameters in [0.01, 25] the draw "
+             f"is dominated by a null-space component (norm up to {worst:.0f}); largest affected variance {max(bad) if bad else None}. "
+             "C17's support check fixes the variance at 25 for that reason.")
